@@ -4,6 +4,8 @@ package stack
 
 import (
 	"fmt"
+	"net"
+	"net/url"
 	"sort"
 	"strings"
 	"sync"
@@ -230,6 +232,29 @@ func c11Scenario(t *testing.T, res *common.Result, rng *common.Rng, cfg c11cfg, 
 		}
 		time.Sleep(50 * time.Millisecond)
 	}
+
+	// a slow REST client: a request of a session of its own whose headers have arrived and whose body is
+	// only partly sent when the signal comes (in flight in the strictest sense: the handler is reading it)
+	stalledReq := false
+	if cfg.rest && (point%2 == 0 || point == N) {
+		rc2 := newRestClient(srv.restAddr, nil)
+		defer rc2.closeIdle()
+		if r := rc2.createSession(); r.Status == 201 {
+			if u, err := url.Parse(rc2.base); err == nil && len(rc2.hc.Jar.Cookies(u)) > 0 {
+				ck := rc2.hc.Jar.Cookies(u)[0]
+				if conn, err := net.Dial("tcp", srv.restAddr); err == nil {
+					defer conn.Close()
+					body := `{"name":"stalled-request-lock-name-0123456789"}`
+					fmt.Fprintf(conn, "POST /v1/lock HTTP/1.1\r\nHost: %s\r\nContent-Type: application/json\r\nContent-Length: %d\r\nCookie: %s=%s\r\n\r\n%s",
+						srv.restAddr, len(body), ck.Name, ck.Value, body[:10])
+					time.Sleep(100 * time.Millisecond)
+					stalledReq = true
+					logf("rest(second session) POST /v1/lock: headers and 10 of %d body bytes sent, the rest never arrives", len(body))
+				}
+			}
+		}
+	}
+	res.Count(fmt.Sprintf("stalled-rest-request-in-flight:%v", stalledReq))
 
 	// ---- the case
 	shape := map[string]int{}
